@@ -21,9 +21,15 @@ import (
 	"time"
 )
 
+var repoDir = func() string {
+	if d := os.Getenv("VERIF_REPO"); d != "" {
+		return d // self-test only: a scratch copy of /repo with a mutant applied
+	}
+	return "/repo"
+}()
+
 const (
 	verifDir = "/verif"
-	repoDir  = "/repo"
 	goRoot   = "/opt/veriftools/go1.26.8"
 	hookPath = "github.com/tmaxmax/go-sse/verifhook"
 )
